@@ -287,6 +287,9 @@ type SchemaOpts struct {
 	NoOwnInverse       bool
 	AllowTypeField     bool // fields may be named "type" (the library allows it; JSON:API does not)
 	JSONTagOptions     bool // some field names carry a json tag option ("a,omitempty"): the library uses the whole tag as the name
+	OddFromType        bool // one-way relationships of soft types may leave FromType empty or wrong (AddRel and Check accept that)
+	OddCardinality     bool // the two sides of a pair may disagree about cardinality (Check only compares names)
+	OddRelKeys         bool // soft types may store a relationship under a map key that is not its name (hand-written literals)
 }
 
 // DefaultSchemaOpts is used by most properties.
@@ -386,8 +389,14 @@ func CoherentSchema(t *rapid.T, o SchemaOpts) *SchemaSpec {
 		switch {
 		case kind == 0:
 			used[a][x] = true
+			fromType := specs[a].Name
+
+			if o.OddFromType && !specs[a].Struct && rapid.IntRange(0, 2).Draw(t, "oddFromType") == 0 {
+				fromType = rapid.SampledFrom([]string{"", specs[b].Name, "ghost"}).Draw(t, "fromTypeValue")
+			}
+
 			specs[a].Rels = append(specs[a].Rels, jsonapi.Rel{
-				FromType: specs[a].Name, FromName: x, ToOne: toOne, ToType: specs[b].Name,
+				FromType: fromType, FromName: x, ToOne: toOne, ToType: specs[b].Name,
 				FromOne: rapid.Bool().Draw(t, "fromOne"),
 			})
 		case kind == 3 && !o.NoOwnInverse:
@@ -416,15 +425,27 @@ func CoherentSchema(t *rapid.T, o SchemaOpts) *SchemaSpec {
 			specs[a].Rels = append(specs[a].Rels, jsonapi.Rel{
 				FromType: specs[a].Name, FromName: x, ToOne: toOne, ToType: specs[b].Name, ToName: y, FromOne: fromOne,
 			})
-			specs[b].Rels = append(specs[b].Rels, jsonapi.Rel{
-				FromType: specs[b].Name, FromName: y, ToOne: fromOne, ToType: specs[a].Name, ToName: x, FromOne: toOne,
-			})
+			inv := jsonapi.Rel{FromType: specs[b].Name, FromName: y, ToOne: fromOne, ToType: specs[a].Name, ToName: x, FromOne: toOne}
+
+			if o.OddCardinality && rapid.IntRange(0, 3).Draw(t, "oddCardinality") == 0 {
+				inv.ToOne = rapid.Bool().Draw(t, "invToOne")
+				inv.FromOne = rapid.Bool().Draw(t, "invFromOne")
+			}
+
+			specs[b].Rels = append(specs[b].Rels, inv)
 		}
 	}
 
 	for i := range specs {
 		sort.Slice(specs[i].Attrs, func(a, b int) bool { return specs[i].Attrs[a].Name < specs[i].Attrs[b].Name })
 		sort.Slice(specs[i].Rels, func(a, b int) bool { return specs[i].Rels[a].FromName < specs[i].Rels[b].FromName })
+
+		if o.OddRelKeys && !specs[i].Struct && len(specs[i].Rels) > 0 && rapid.IntRange(0, 2).Draw(t, "oddkeys") == 0 {
+			specs[i].RelKeys = map[string]string{}
+			for _, r := range specs[i].Rels {
+				specs[i].RelKeys[r.FromName] = "k-" + r.FromName
+			}
+		}
 	}
 
 	return BuildSchema(specs)
@@ -485,6 +506,12 @@ func FillResource(t *rapid.T, res jsonapi.Resource, ts *TypeSpec, label string) 
 
 	for _, r := range ts.Rels {
 		v := RelIDs(t, r, label+"-"+r.FromName, 5, true)
+
+		// A to-many list may name an ID twice (rarely).
+		if ids, ok := v.([]string); ok && len(ids) > 0 && rapid.IntRange(0, 7).Draw(t, label+"-"+r.FromName+"-dup") == 0 {
+			v = append(ids, ids[rapid.IntRange(0, len(ids)-1).Draw(t, label+"-"+r.FromName+"-dupidx")])
+		}
+
 		vals[r.FromName] = Clone(v)
 		res.Set(r.FromName, v)
 	}
